@@ -37,6 +37,18 @@ def wl_history(ctx, rng, case):
     ctx.observe("est_elements", est)
     try:
         f = P.ExpandingBloomFilter(est_elements=est, false_positive_rate=rate, **bl.kw_hash(hf))
+        sib = None
+        if rng.random() < 0.3:
+            from probables.hashes import default_md5 as _md5
+
+            sib = P.ExpandingBloomFilter(est_elements=est, false_positive_rate=rate, **bl.kw_hash(_md5 if hf is None else None))  # same sizing, another strategy
+        seen = set()
+
+        def sib_probe(key):
+            p = f.check(key)
+            ctx.check(p or key not in seen, "a key that was added to this filter earlier is reported absent right after a sibling filter (another hash strategy) handled the same key", key=key)
+            return p
+
         counts = [0]
         calls = 0
         effective = 0
@@ -54,7 +66,13 @@ def wl_history(ctx, rng, case):
                 elif not force and rng.random() < 0.3:
                     force = rng.choice([0, None])  # ... and a falsy one that is not the object False: not forced
                     ctx.count("adds_with_a_falsy_flag_that_is_not_False")
-                present = f.check(key)
+                if sib is not None and rng.random() < 0.4:
+                    # a SIBLING filter (same sizing, another hash strategy) is asked about - or given - the same key right before
+                    (sib.check(key), key in sib) if rng.random() < 0.6 else sib.add(key)
+                    ctx.count("calls_on_a_sibling_with_another_strategy_right_before")
+                    present = sib_probe(key)
+                else:
+                    present = f.check(key)
                 eff = force or not present
                 _, _, bits_before = stream_state(f) if (present and not force) else (None, None, None)
                 if rng.random() < 0.85:
@@ -66,6 +84,7 @@ def wl_history(ctx, rng, case):
                     f.add_alt(arg, force)
                     bl.arg_unchanged(ctx, arg, cp, "add_alt")
                 calls += 1
+                seen.add(key)
                 if eff:
                     if counts[-1] >= est:
                         counts.append(0)
